@@ -542,7 +542,7 @@ class ProcFn:
         "make_netloc": ("make_netloc' B", [("user", "optstr", None), ("password", "optstr", None), ("host", "optstr", None),
                                            ("port", "optint", None), ("encode", "bool", "false")], "str", False),
     }
-    TABLES = ("SCHEME_REQUIRES_HOST", "USES_AUTHORITY")
+    TABLES = ("SCHEME_REQUIRES_HOST", "USES_AUTHORITY", "USES_RELATIVE")
     FIELDS = ("_scheme", "_netloc", "_path", "_query", "_fragment", "_cache")
 
     def coerce(self, text, have, want):
@@ -1173,6 +1173,230 @@ class MethFn(ProcFn):
         return f"Definition gen_{fd.name.strip('_')} {ps} : {rt} :=\n  {body}.", (["url"] * len(names), self.rett)
 
 
+class ModFn(MethFn):
+    """Modifiers of class URL (with_scheme, with_user, with_password, with_host, with_fragment): methods
+    with further parameters of the documented types (str, Optional[str]) that return a new URL through
+    [from_parts] or raise.  [isinstance(x, str)] is decided by the declared type (arguments of
+    undocumented types are outside the property); [x.lower()] is the oracle py_lower (str.lower);
+    [opt or ""] is opt_or_empty; [pass] is skipped."""
+
+    portarg = False
+    RT = dict(MethFn.RT)
+    RT["rurl"] = (True, "url")
+    RT["url"] = (False, "url")
+    CALLEES = dict(MethFn.CALLEES)
+    for _n in ("QUOTER", "FRAGMENT_QUOTER", "PATH_QUOTER", "QUERY_QUOTER"):
+        CALLEES[_n] = ("Q B " + _n, [("s", "str", None)], "str", False)
+    CALLEES["from_parts"] = ("from_parts", [("scheme", "str", None), ("netloc", "str", None), ("path", "str", None),
+                                            ("query", "str", None), ("fragment", "str", None)], "url", False)
+
+    def expr(self, e, env):
+        if isinstance(e, ast.BoolOp) and isinstance(e.op, ast.Or) and len(e.values) == 2 \
+                and isinstance(e.values[1], ast.Constant) and e.values[1].value == "":
+            a, ta = self.expr(e.values[0], env)
+            if ta == "optstr":
+                return f"(opt_or_empty {a})", "str"
+            if ta == "str":
+                return a, "str"
+        if isinstance(e, ast.Call) and isinstance(e.func, ast.Attribute) and e.func.attr == "lower" and not e.args and not e.keywords:
+            a, ta = self.expr(e.func.value, env)
+            if ta == "str":
+                return f"(py_lower O {a})", "str"
+        if isinstance(e, ast.Name) and env.get(e.id) == "url":
+            return e.id, "url"
+        if isinstance(e, ast.Name) and env.get(e.id) == "strs":
+            return e.id, "strs"
+        # a or b   on two str values
+        if isinstance(e, ast.BoolOp) and isinstance(e.op, ast.Or) and len(e.values) == 2:
+            try:
+                a, ta = self.expr(e.values[0], env)
+                b, tb = self.expr(e.values[1], env)
+            except Untranslatable:
+                ta = tb = None
+            if ta == tb == "str":
+                return f"(if nonempty {a} then {a} else {b})", "str"
+        if isinstance(e, ast.BinOp) and isinstance(e.op, ast.Add):
+            a, ta = self.expr(e.left, env)
+            b, tb = self.expr(e.right, env)
+            if ta == tb == "str":
+                return f"({a} ++ {b})", "str"
+            raise Untranslatable("+ on " + str(ta) + "/" + str(tb))
+        if isinstance(e, ast.Subscript) and ast.unparse(e.slice) == "1:":
+            a, ta = self.expr(e.value, env)
+            if ta == "str":
+                return f"(tl {a})", "str"
+        # x.raw_parts (total in the model)
+        if isinstance(e, ast.Attribute) and isinstance(e.value, ast.Name) and env.get(e.value.id) == "url" and e.attr == "raw_parts":
+            return f"(raw_parts {e.value.id})", "strs"
+        # [*xs, "lit"]
+        if isinstance(e, ast.List) and len(e.elts) == 2 and isinstance(e.elts[0], ast.Starred) and isinstance(e.elts[1], ast.Constant):
+            a, ta = self.expr(e.elts[0].value, env)
+            if ta == "strs":
+                return f"({a} ++ [{lit(e.elts[1].value)}])", "strs"
+        if isinstance(e, ast.Call) and isinstance(e.func, ast.Attribute) and e.func.attr == "split" and len(e.args) == 1 and not e.keywords:
+            a, ta = self.expr(e.func.value, env)
+            if ta == "str":
+                return f"(split {one_char(e.args[0])} {a})", "strs"
+        if isinstance(e, ast.Call) and isinstance(e.func, ast.Attribute) and e.func.attr == "join" and len(e.args) == 1 and not e.keywords:
+            a, ta = self.expr(e.args[0], env)
+            if ta == "strs":
+                return f"(join [{one_char(e.func.value)}] {a})", "str"
+        if isinstance(e, ast.Subscript) and ast.unparse(e.slice) == ":-1":
+            a, ta = self.expr(e.value, env)
+            if ta == "strs":
+                return f"(removelast {a})", "strs"
+        return super().expr(e, env)
+
+    def unguarded(self, node, env):
+        """str names indexed as x[0] outside an [x and ...] guard"""
+        guarded, found = set(), []
+        for n in ast.walk(node):
+            if isinstance(n, ast.BoolOp) and isinstance(n.op, ast.And) and isinstance(n.values[0], ast.Name):
+                guarded.add(n.values[0].id)
+        for n in ast.walk(node):
+            if isinstance(n, ast.Subscript) and isinstance(n.value, ast.Name) and env.get(n.value.id) == "str" \
+                    and ast.unparse(n.slice) in ("0", "-1") and n.value.id not in guarded and n.value.id not in found:
+                found.append(n.value.id)
+        return found
+
+    def cond_bool(self, test, env):
+        # x[0] == "c": the caller has checked that x is not empty (stmts wraps the statement in that check)
+        if isinstance(test, ast.Compare) and len(test.ops) == 1 and isinstance(test.ops[0], (ast.Eq, ast.NotEq)) \
+                and isinstance(test.left, ast.Subscript) and isinstance(test.left.value, ast.Name) and env.get(test.left.value.id) == "str" \
+                and ast.unparse(test.left.slice) in ("0", "-1") and test.left.value.id in getattr(self, "nonempty_checked", ()):
+            ch = one_char(test.comparators[0])
+            t = f"N.eqb c0 {ch}" if isinstance(test.ops[0], ast.Eq) else f"negb (N.eqb c0 {ch})"
+            if ast.unparse(test.left.slice) == "-1":
+                return f"(match last_opt {test.left.value.id} with Some c0 => {t} | None => false end)"
+            return f"(match {test.left.value.id} with c0 :: _ => {t} | [] => false end)"
+        if isinstance(test, ast.Call) and isinstance(test.func, ast.Name) and test.func.id == "isinstance" and len(test.args) == 2 \
+                and isinstance(test.args[0], ast.Name) and isinstance(test.args[1], ast.Name) and test.args[1].id == "str":
+            t = env.get(test.args[0].id)
+            if t == "str":
+                return "true"
+            if t == "none":
+                return "false"
+            raise Untranslatable("isinstance of a value of type " + str(t))
+        if isinstance(test, ast.Call) and isinstance(test.func, ast.Name) and test.func.id == "isinstance" and len(test.args) == 2 \
+                and isinstance(test.args[0], ast.Name) and isinstance(test.args[1], ast.Name) and test.args[1].id in ("bool", "int") \
+                and env.get(test.args[0].id) in ("pbool", "zint"):
+            t = env[test.args[0].id]
+            return "true" if (test.args[1].id == "int" or t == "pbool") else "false"     # bool is a subclass of int
+        # 0 <= n <= 65535 on an int argument
+        if isinstance(test, ast.Compare) and len(test.ops) == 2 and all(isinstance(o, ast.LtE) for o in test.ops) \
+                and isinstance(test.left, ast.Constant) and isinstance(test.comparators[0], ast.Name) \
+                and env.get(test.comparators[0].id) == "zint" and isinstance(test.comparators[1], ast.Constant) \
+                and isinstance(test.left.value, int) and isinstance(test.comparators[1].value, int):
+            x = test.comparators[0].id
+            return f"(Z.leb {test.left.value} {x} && Z.leb {x} {test.comparators[1].value})%bool"
+        # x and x[0] != "c"
+        if isinstance(test, ast.BoolOp) and isinstance(test.op, ast.And) and len(test.values) == 2 and isinstance(test.values[0], ast.Name) \
+                and env.get(test.values[0].id) == "str" and isinstance(test.values[1], ast.Compare) and len(test.values[1].ops) == 1 \
+                and isinstance(test.values[1].left, ast.Subscript) and ast.unparse(test.values[1].left.value) == test.values[0].id \
+                and ast.unparse(test.values[1].left.slice) == "0" and isinstance(test.values[1].ops[0], (ast.Eq, ast.NotEq)):
+            ch = one_char(test.values[1].comparators[0])
+            t = f"N.eqb c0 {ch}" if isinstance(test.values[1].ops[0], ast.Eq) else f"negb (N.eqb c0 {ch})"
+            return f"(match {test.values[0].id} with c0 :: _ => {t} | [] => false end)"
+        return super().cond_bool(test, env)
+
+    def COQ2(self, t):
+        return {"url": "url"}.get(t) or super().COQ2(t)
+
+    def coerce(self, text, have, want):
+        if have == "zint" and want == "optint":
+            return f"(Some (Z.to_N {text}))"
+        return super().coerce(text, have, want)
+
+    def branch(self, test, env, then_k, else_k):
+        # port is not None / port is None   for the argument of with_port (None | bool | int)
+        if isinstance(test, ast.Compare) and len(test.ops) == 1 and isinstance(test.left, ast.Name) \
+                and env.get(test.left.id) == "portarg" and isinstance(test.ops[0], (ast.Is, ast.IsNot)) \
+                and isinstance(test.comparators[0], ast.Constant) and test.comparators[0].value is None:
+            x = test.left.id
+            en, eb, ei = dict(env), dict(env), dict(env)
+            en[x], eb[x], ei[x] = "none", "pbool", "zint"
+            none_k, some_k = (then_k, else_k) if isinstance(test.ops[0], ast.Is) else (else_k, then_k)
+            return f"(match {x} with PNone => {none_k(en)} | PBool {x} => {some_k(eb)} | PInt {x} => {some_k(ei)} end)"
+        return super().branch(test, env, then_k, else_k)
+
+    def stmts(self, body, env, rec):
+        if body and isinstance(body[0], (ast.If, ast.Assign, ast.Return)):
+            node = body[0].test if isinstance(body[0], ast.If) else body[0].value
+            names = [n for n in (self.unguarded(node, env) if node is not None else []) if n not in getattr(self, "nonempty_checked", ())]
+            if names:
+                if not self.fallible:
+                    raise Untranslatable("an index that may fail in a total method")
+                # Python raises IndexError if x[0] is reached with x empty: the emitted function fails whenever x is empty
+                # here (a superset of those cases), so a proof that it never fails covers the source
+                self.nonempty_checked = tuple(getattr(self, "nonempty_checked", ())) + tuple(names)
+                try:
+                    inner = self.stmts(body, env, rec)
+                finally:
+                    self.nonempty_checked = self.nonempty_checked[:-len(names)]
+                for n in names:
+                    inner = f"(match {n} with [] => Err OtherError | _ :: _ => {inner} end)"
+                return inner
+        if body and isinstance(body[0], ast.If) and ast.unparse(body[0].test) == "type(url_) is not URL" and len(body[0].body) == 1 \
+                and isinstance(body[0].body[0], ast.Raise) and not body[0].orelse:
+            return self.stmts(body[1:], env, rec)      # type dispatch on the argument (a URL by assumption)
+        if body and isinstance(body[0], ast.Pass):
+            return self.stmts(body[1:] , env, rec)
+        if body and isinstance(body[0], ast.Raise):
+            return ProcFn.stmts(self, body, env, rec)
+        if body and isinstance(body[0], ast.Assign) and len(body[0].targets) == 1 and isinstance(body[0].targets[0], ast.Name):
+            st, rest = body[0], body[1:]
+            v = st.value
+            if isinstance(v, ast.IfExp):
+                mk = lambda val: (lambda e1: self.stmts([ast.Assign(targets=st.targets, value=val)] + rest, e1, rec))
+                binds = []
+                test = self.hoist(v.test, env, binds)
+                return self.with_binds(binds, env, lambda e1: self.branch(test, e1, mk(v.body), mk(v.orelse)))
+            if isinstance(v, ast.Call) and isinstance(v.func, ast.Name) and v.func.id in self.CALLEES and self.CALLEES[v.func.id][3]:
+                if not self.fallible:
+                    raise Untranslatable("a call that may raise in a total method")
+                call = self.call_text(v, env)
+                e1 = dict(env)
+                e1[st.targets[0].id] = self.CALLEES[v.func.id][2]
+                return f"(match {call} with Err e => Err e | Ok {st.targets[0].id} => {self.stmts(rest, e1, rec)} end)"
+        return super().stmts(body, env, rec)
+
+    def translate(self, fd):
+        if fd.args.vararg or fd.args.kwarg or fd.args.posonlyargs or fd.args.defaults:
+            raise Untranslatable("signature of " + fd.name)
+        for d in fd.decorator_list:
+            if ast.unparse(d) != "cached_property":
+                raise Untranslatable("decorator " + ast.unparse(d))
+        for a, d in zip(fd.args.kwonlyargs, fd.args.kw_defaults):
+            if ast.unparse(a.annotation) != "bool" or not (isinstance(d, ast.Constant) and d.value in (True, False)):
+                raise Untranslatable("keyword-only parameter " + a.arg)
+        import copy
+        fd = copy.deepcopy(fd)
+        for n in ast.walk(fd):             # a parameter called url would shadow the Coq type of that name
+            if isinstance(n, ast.Name) and n.id == "url":
+                n.id = "url_"
+            elif isinstance(n, ast.arg) and n.arg == "url":
+                n.arg = "url_"
+        args = fd.args.args
+        if not args or args[0].arg != "self":
+            raise Untranslatable("parameters of " + fd.name)
+        env = {"self": "url"}
+        ps = ["(self : url)"]
+        for a in list(args[1:]) + list(fd.args.kwonlyargs):
+            if self.portarg and a.arg == "port":
+                t, ct = "portarg", "portarg"
+            elif ast.unparse(a.annotation).strip("'\"") == "URL":
+                t, ct = "url", "url"
+            else:
+                t = TreeFn({}).ann(a.annotation)
+                ct = self.COQ[t]
+            env[a.arg] = t
+            ps.append(f"({a.arg} : {ct})")
+        body = self.stmts(list(fd.body), env, {})
+        base = {"url": "url"}[self.rtype]
+        rt = f"result ({base})" if self.fallible else base
+        return f"Definition gen_{fd.name.strip('_')} {' '.join(ps)} : {rt} :=\n  {body}.", ([], self.rett)
+
+
 SOURCES = [
     # (source file, output module, header imports, tables usable in "x in TABLE", functions with stub signatures)
     ("_path.py", "PathGen", "From Yarl Require Export Base.PyStr.", (),
@@ -1182,7 +1406,7 @@ SOURCES = [
      [("unsplit_result", "(scheme netloc url query fragment : str) : str", "[]"),
       ("make_netloc", "(q : str -> str) (user password host : option str) (port : option N) (encode : bool) : str", "[]", {"QUOTER": "q"})]),
     ("_url.py", "UrlGen",
-     "From Yarl Require Export Base.PyStr Generated.Tables Model.Parse Model.Host Model.Quoters Model.Path Model.Url Model.GenTypes.\n"
+     "From Coq Require Import ZArith.\nFrom Yarl Require Export Base.PyStr Generated.Tables Model.Parse Model.Host Model.Quoters Model.Path Model.Url Model.GenTypes.\n"
      "Section G.\nVariable O : oracles.\nVariable B : backend.", (),
      [("encode_url", "(url_str : str) : result gen_url", "Err OtherError", "proc"),
       ("pre_encoded_url", "(url_str : str) : result gen_url", "Err OtherError", "proc"),
@@ -1207,7 +1431,18 @@ SOURCES = [
       ("URL.raw_path", "(self : url) : str", "[]", "meth", "str"),
       ("URL.path", "(self : url) : str", "[]", "meth", "str"),
       ("URL.path_safe", "(self : url) : str", "[]", "meth", "str"),
-      ("URL.absolute", "(self : url) : bool", "false", "meth", "bool")]),
+      ("URL.absolute", "(self : url) : bool", "false", "meth", "bool"),
+      ("URL.with_scheme", "(self : url) (scheme : str) : result url", "Err OtherError", "mod", "rurl"),
+      ("URL.with_user", "(self : url) (user : option str) : result url", "Err OtherError", "mod", "rurl"),
+      ("URL.with_password", "(self : url) (password : option str) : result url", "Err OtherError", "mod", "rurl"),
+      ("URL.with_host", "(self : url) (host : str) : result url", "Err OtherError", "mod", "rurl"),
+      ("URL.with_fragment", "(self : url) (fragment : option str) : url", "self", "mod", "url"),
+      ("URL.with_port", "(self : url) (port : portarg) : result url", "Err OtherError", "mod", "rurl", "portarg"),
+      ("URL.with_path", "(self : url) (path : str) (encoded keep_query keep_fragment : bool) : url", "self", "mod", "url"),
+      ("URL._origin", "(self : url) : result url", "Err OtherError", "mod", "rurl"),
+      ("URL.relative", "(self : url) : result url", "Err OtherError", "mod", "rurl"),
+      ("URL.parent", "(self : url) : result url", "Err OtherError", "mod", "rurl"),
+      ("URL.join", "(self url : url) : result url", "Err OtherError", "mod", "rurl")]),
 ]
 
 
@@ -1233,7 +1468,11 @@ def generate_one(repo, fname, header, tables, wanted):
         try:
             if name not in fds:
                 raise Untranslatable("function " + name + " not found")
-            if tree and tree[0] == "meth":
+            if tree and tree[0] == "mod":
+                m = ModFn(tree[1], methods)
+                m.portarg = len(tree) > 2 and tree[2] == "portarg"
+                text, ty = m.translate(fds[name])
+            elif tree and tree[0] == "meth":
                 text, ty = MethFn(tree[1], methods).translate(fds[name])
                 methods[name.split(".")[1]] = tree[1]
             elif tree and tree[0] == "proc":
